@@ -23,7 +23,6 @@ import (
 
 	"github.com/gogo/protobuf/protoc-gen-gogo/descriptor"
 	"github.com/gogo/protobuf/protoc-gen-gogo/generator"
-	"github.com/stoewer/go-strcase"
 )
 
 const (
@@ -141,7 +140,7 @@ func (c *MessageBuildContext) GetOneOfNames() []string {
 	for i, d := range c.desc.OneofDecl {
 		name := d.GetName()
 		if name[0:1] == strings.ToLower(name[0:1]) {
-			name = strcase.UpperCamelCase(name)
+			name = generator.CamelCase(name)
 		}
 		s[i] = name
 	}
